@@ -98,6 +98,10 @@ type vcase struct {
 	envName []string
 	envVal  []string // "\x00" = unset
 	declIdx int
+	// the caller's default slices (multi-valued types), shared by every application built for this case
+	dS []string
+	dI []int
+	dF []float64
 }
 
 const vUnset = "\x00unset"
@@ -317,10 +321,12 @@ func (v *vcase) run() (o vobs) {
 		}
 		get = func() []interface{} { return []interface{}{*p} }
 	case kStrings:
-		var d []string
-		for _, x := range v.def {
-			d = append(d, x.(string))
+		if v.dS == nil && len(v.def) > 0 {
+			for _, x := range v.def {
+				v.dS = append(v.dS, x.(string))
+			}
 		}
+		d := v.dS // the same slice object on every run of this case: the caller's default
 		p := new([]string)
 		switch {
 		case v.asArg && v.declIdx == 0:
@@ -338,10 +344,12 @@ func (v *vcase) run() (o vobs) {
 		}
 		get = func() []interface{} { return list(len(*p), func(i int) interface{} { return (*p)[i] }) }
 	case kInts:
-		var d []int
-		for _, x := range v.def {
-			d = append(d, x.(int))
+		if v.dI == nil && len(v.def) > 0 {
+			for _, x := range v.def {
+				v.dI = append(v.dI, x.(int))
+			}
 		}
+		d := v.dI
 		p := new([]int)
 		switch {
 		case v.asArg && v.declIdx == 0:
@@ -359,10 +367,12 @@ func (v *vcase) run() (o vobs) {
 		}
 		get = func() []interface{} { return list(len(*p), func(i int) interface{} { return (*p)[i] }) }
 	case kFloats:
-		var d []float64
-		for _, x := range v.def {
-			d = append(d, x.(float64))
+		if v.dF == nil && len(v.def) > 0 {
+			for _, x := range v.def {
+				v.dF = append(v.dF, x.(float64))
+			}
 		}
+		d := v.dF
 		p := new([]float64)
 		switch {
 		case v.asArg && v.declIdx == 0:
@@ -620,6 +630,22 @@ func runValueCase(c *core.Ctx, v *vcase, what string) {
 	}
 	if e.anyNonEmpty && !e.anyValid {
 		c.Inc("env_all_invalid")
+	}
+	// a second application declared with the very same default slice (as a package-level default would be) and given
+	// nothing must still see the declared default: the first one must not have written into the caller's slice
+	if what == "value" && v.kind.multi() && len(v.def) > 0 && !e.reject && (len(v.Cli) > 0 || e.src == "env") {
+		v2 := *v
+		v2.Cli = nil
+		v2.envName, v2.envVal = nil, nil
+		v2.finish()
+		c.Journal(&v2)
+		o2 := v2.run()
+		c.Eval()
+		if o2.pan != nil || !o2.ran || !veqList(o2.got, v.def) {
+			c.Violation(fmt.Sprintf("a second application declared with the same default slice sees %s instead of the default %s (the first one was given values)", vstr(o2.got), vstr(v.def)), nil, nil)
+			return
+		}
+		c.Inc("shared_default_slice_intact")
 	}
 	if c.WantSample() && present >= 2 && len(v.envName) >= 2 {
 		c.Sample(v)
